@@ -1,5 +1,6 @@
-(* C09 - where the full statement "every failing call leaves the graph unchanged" is FALSE of the faithful
-   model: concrete witnesses (each is replayed on the real code by harness/topo9_gen.refuted_witnesses). *)
+(* C09 - example graphs, and where the full statement "every failing call leaves the graph unchanged" is still
+   FALSE of the faithful model: concrete witnesses (each is replayed on the real code by
+   harness/topo9_gen.refuted_witnesses). *)
 From Coq Require Import List NArith Bool String.
 From FIM Require Import Base.Str Gen.T9Names Model.T9Graph Model.T9Ops Model.T9Check.
 Import ListNotations.
@@ -26,55 +27,6 @@ Proof. vm_compute. reflexivity. Qed.
 
 Ltac differs := let Heq := fresh "Heq" in intro Heq; apply (f_equal (fun g => List.length (gnodes g))) in Heq; vm_compute in Heq; discriminate.
 
-(* (iii) add_link with a handle of an interface that is no longer in the graph: the Link node (and the edges
-   to the interfaces before the bad one) stay behind *)
-Definition w_link_stale : st * res N :=
-  op_add_link Experiment (S "l1") None (Some tPatch) (Some [mkIface 4 (S "nic1-p1"); mkIface 40 (S "gone")]) None
-              (mkSt g_two_nodes supply).
-
-Lemma add_link_atomic_refuted :
-  exists fl name nid lt ifs pure g fresh s' e,
-    wf_graph g = true /\ op_add_link fl name nid lt ifs pure (mkSt g fresh) = (s', Err e) /\ sg s' <> g.
-Proof.
-  exists Experiment, (S "l1"), None, (Some tPatch), (Some [mkIface 4 (S "nic1-p1"); mkIface 40 (S "gone")]), None,
-         g_two_nodes, supply, (fst w_link_stale), EQuery.
-  split; [exact g_two_nodes_wf|]. split; [vm_compute; reflexivity|differs].
-Qed.
-
-(* (ii) the service constructor rolls back on TopologyException only: a stale interface handle at position 1
-   raises PropertyGraphQueryException and the service, the first peer port and its link stay behind *)
-Definition w_service_stale : st * res N :=
-  op_add_service Experiment (S "s1") None (Some tL2Bridge) [mkIface 4 (S "nic1-p1"); mkIface 40 (S "gone")] None
-                 (mkSt g_two_nodes supply).
-
-Lemma service_atomic_refuted_query :
-  exists fl name nid ty ifs pure g fresh s',
-    wf_graph g = true /\ op_add_service fl name nid ty ifs pure (mkSt g fresh) = (s', Err EQuery) /\ sg s' <> g.
-Proof.
-  exists Experiment, (S "s1"), None, (Some tL2Bridge), [mkIface 4 (S "nic1-p1"); mkIface 40 (S "gone")], None,
-         g_two_nodes, supply, (fst w_service_stale).
-  split; [exact g_two_nodes_wf|]. split; [vm_compute; reflexivity|differs].
-Qed.
-
-(* (ii') a derived peer-interface name longer than 255 characters raises ValueError after the service exists *)
-Definition long_name (n : nat) : str := repeat 120 n.
-Definition g_long : graph :=
-  mkGraph [mkNode 1 cNN (long_name 200) tVM 1; mkNode 2 cComp (long_name 60) tNIC 2; mkNode 3 cNS (S "x-l2ovs") tOVS 3;
-           mkNode 4 cCP (long_name 63) tSharedPort 4]
-          [mkEdge 1 2 rHas; mkEdge 2 3 rHas; mkEdge 3 4 rConnects].
-
-Definition w_service_long : st * res N :=
-  op_add_service Experiment (S "s1") None (Some tL2Bridge) [mkIface 4 (long_name 63)] None (mkSt g_long supply).
-
-Lemma service_atomic_refuted_value :
-  exists fl name nid ty ifs pure g fresh s',
-    wf_graph g = true /\ op_add_service fl name nid ty ifs pure (mkSt g fresh) = (s', Err EValue) /\ sg s' <> g.
-Proof.
-  exists Experiment, (S "s1"), None, (Some tL2Bridge), [mkIface 4 (long_name 63)], None, g_long, supply,
-         (fst w_service_long).
-  split; [vm_compute; reflexivity|]. split; [vm_compute; reflexivity|differs].
-Qed.
-
 (* composite sliver adders: a caller-supplied child id that already exists (substrate topologies) is
    detected after the component node has been added *)
 Definition spec_smartnic (nsid i1 i2 : N) : comp_spec :=
@@ -94,46 +46,22 @@ Proof.
   split; [exact g_two_nodes_wf|]. split; [vm_compute; reflexivity|differs].
 Qed.
 
-(* add_facility: node, service and ports are three separate steps without rollback; an invalid second port
-   name leaves node + service + first port *)
-Definition w_facility_late : st * res N :=
-  op_add_facility Experiment (S "fac1") None 0 0 [] tVLAN None
-                  (Some [mkFacPort (S "pa") None; mkFacPort [] None]) None (mkSt g_two_nodes supply).
-
-Lemma add_facility_atomic_refuted :
-  exists fl name nid dns dint dk ty pns ports ps g fresh s' e,
-    wf_graph g = true /\ op_add_facility fl name nid dns dint dk ty pns ports ps (mkSt g fresh) = (s', Err e) /\ sg s' <> g.
-Proof.
-  exists Experiment, (S "fac1"), None, 0, 0, [], tVLAN, None, (Some [mkFacPort (S "pa") None; mkFacPort [] None]), None,
-         g_two_nodes, supply, (fst w_facility_late), EValue.
-  split; [exact g_two_nodes_wf|]. split; [vm_compute; reflexivity|differs].
-Qed.
-
-(* add_switch: the same three-step structure; a port's labels rejected after node and service exist *)
+(* add_switch WITHOUT the rollback of proposed_fixes/C09-5.patch (flag false): node, service, ports in three steps;
+   a port's labels rejected after node and service exist *)
 Definition w_switch_late : st * res N :=
-  op_add_switch Experiment (S "sw1") None 0 [] tVLAN None 2 (Some EAssert) (mkSt g_two_nodes supply).
+  op_add_switch false Experiment (S "sw1") None 0 [] tVLAN None 2 (Some EAssert) (mkSt g_two_nodes supply).
 
 Lemma add_switch_atomic_refuted :
   exists fl name nid dns dk ty pns np pp g fresh s' e,
-    wf_graph g = true /\ op_add_switch fl name nid dns dk ty pns np pp (mkSt g fresh) = (s', Err e) /\ sg s' <> g.
+    wf_graph g = true /\ op_add_switch false fl name nid dns dk ty pns np pp (mkSt g fresh) = (s', Err e) /\ sg s' <> g.
 Proof.
   exists Experiment, (S "sw1"), None, 0, [], tVLAN, None, 2%nat, (Some EAssert),
          g_two_nodes, supply, (fst w_switch_late), EAssert.
   split; [exact g_two_nodes_wf|]. split; [vm_compute; reflexivity|differs].
 Qed.
 
-(* peer: two top-level services 30 and 31; 31 already has an interface named "b-a": the ServicePort "a-b"
-   is added to 30 before the second step is refused *)
+(* two top-level services 30 and 31; 31 already has an interface named "b-a" *)
 Definition g_two_services : graph :=
   mkGraph [mkNode 30 cNS (S "a") tL2Bridge 1; mkNode 31 cNS (S "b") tL2Bridge 1; mkNode 32 cCP (S "b-a") tServicePort 2]
           [mkEdge 31 32 rConnects].
 
-Definition w_peer_late : st * res unit := op_peer Experiment 30 31 None (mkSt g_two_services supply).
-
-Lemma peer_atomic_refuted :
-  exists fl a b pure g fresh s',
-    wf_graph g = true /\ op_peer fl a b pure (mkSt g fresh) = (s', Err ETopology) /\ sg s' <> g.
-Proof.
-  exists Experiment, 30, 31, None, g_two_services, supply, (fst w_peer_late).
-  split; [vm_compute; reflexivity|]. split; [vm_compute; reflexivity|differs].
-Qed.
